@@ -1072,6 +1072,11 @@ func (c *cluster) handleNodeAction(nodeAction nodeAction) error {
 		if err := c.completeCurrentJob(resizeJobStateDone); err != nil {
 			return errors.Wrap(err, "completing finished job")
 		}
+		// An abort request recorded before the job was completed wins
+		// over the result; the membership does not change.
+		if !j.isDone() {
+			return nil
+		}
 		// Add/remove uri to/from the cluster.
 		if j.action == resizeJobActionRemove {
 			c.mu.Lock()
@@ -1267,6 +1272,23 @@ func (c *cluster) unprotectedCompleteCurrentJob(state string) error {
 	}
 	c.currentJob.setState(state)
 	c.currentJob = nil
+	return nil
+}
+
+// abortCurrentJob marks the current resizeJob as aborted and wakes
+// handleNodeAction, which completes the job (removes the pointer to
+// currentJob) and lets the cluster leave state RESIZING.
+func (c *cluster) abortCurrentJob() error {
+	c.mu.Lock()
+	defer c.mu.Unlock()
+	if !c.unprotectedIsCoordinator() {
+		return ErrNodeNotCoordinator
+	}
+	if c.currentJob == nil {
+		return ErrResizeNotRunning
+	}
+	c.currentJob.setState(resizeJobStateAborted)
+	c.currentJob.sendResult(resizeJobStateAborted)
 	return nil
 }
 
@@ -1512,6 +1534,13 @@ func (j *resizeJob) run() error {
 		return errors.Wrap(err, "distributing instructions")
 	}
 	return nil
+}
+
+// isDone returns true if the job ended in state DONE.
+func (j *resizeJob) isDone() bool {
+	j.mu.RLock()
+	defer j.mu.RUnlock()
+	return j.state == resizeJobStateDone
 }
 
 // isComplete return true if the job is any one of several completion states.
